@@ -149,6 +149,24 @@ Definition assign (installs : list (name * V)) (log : list rd) : list nat := ass
 Definition reads_ok (installs : list (name * V)) (log : list rd) : bool :=
   check_ann installs log (assign installs log).
 
+(* ---------------- watchers: the ready flag of one watcher under notifications and takes.
+   watcher.go: notify is a NON-BLOCKING send on a one-slot channel under the store lock (a pending
+   notification absorbs further ones, nothing ever waits for a receiver); Updater.Get takes the slot
+   if it is full.  The observed takes of an Updater are judged by running Store.v's own
+   add_watcher / notify / ready_take. *)
+Inductive wstep :=
+| WN                 (* a poll installed a new version of the watched name: applyUpdates notifies *)
+| WT (obs : bool).   (* Updater.Get: did it find the flag set (and rebuild its value)? *)
+
+Definition watch_store (n : name) : store := fst (add_watcher (ST [] [] [] true 0%Z) n).
+Fixpoint watch_from (n : name) (s : store) (l : list wstep) : bool :=
+  match l with
+  | [] => true
+  | WN :: r => watch_from n (notify n s) r
+  | WT o :: r => let '(s', f) := ready_take s 0 in Bool.eqb f o && watch_from n s' r
+  end.
+Definition watch_ok (n : name) (l : list wstep) : bool := watch_from n (watch_store n) l.
+
 End Readers.
 
 Arguments VSecret {V}.
